@@ -27,7 +27,7 @@ Theorem C16_inv_empty : forall (ow : bool) (sq : nat) (jk : Z), 0 < sq -> inv ow
 Proof. exact inv_empty. Qed.
 Print Assumptions C16_inv_empty.
 
-(* every one of the 29 modelled single-queue operations, on every state satisfying the invariant, for both item
+(* every one of the 38 modelled single-queue operations, on every state satisfying the invariant, for both item
    kinds, every junk value and every inline-array size: the invariant is preserved, the resulting
    items are those of the ideal sequence and the result (value / status / count / index) is the same *)
 Theorem C16_step_refines : forall (ow : bool) (jk : Z) (sq : nat) (q : q1) (o : op),
@@ -132,6 +132,14 @@ Theorem C16_add_head_multi_self_old_refuted : exists q start num,
 Proof. exact add_head_multi_self_old_refuted. Qed.
 Print Assumptions C16_add_head_multi_self_old_refuted.
 
+
+(* finding F35 (fixed in /repo a3dd71f): the un-repaired SwapContentsAux loses the invariant, the repaired one keeps it *)
+Theorem C16_swap_contents_aux_old_refuted : exists sm lg,
+  inv true 3 sm /\ inv true 3 lg /\ st sm = SSmall /\ st lg <> SSmall /\
+  ~ inv true 3 (fst (swap_contents_aux_old sm lg)) /\
+  inv true 3 (fst (swap_contents_aux true sm lg)).
+Proof. exact swap_contents_aux_old_refuted. Qed.
+Print Assumptions C16_swap_contents_aux_old_refuted.
 
 (* non-vacuity of the premise [inv q]: a reachable wrapped-around state on the inline array, and a
    heap state of trivial items with junk outside the window *)
